@@ -314,6 +314,10 @@ def c10_4(ctx: Ctx) -> RuleResult:
         if b_ != mm["m"]:
             why = "the non-relative branch does not keep the magnitude unchanged"
             continue
+        # the fraction that is scaled is the configured magnitude itself
+        if not (contains(mm["m"], lambda s: s[0] == "attr" and s[2] == "perturbation_magnitudes") and not contains(mm["m"], lambda s: s[0] == "call" and s[1][0] == "attr" and s[1][2].endswith("_to_optimizer"))):
+            why = f"the fraction of the bound range is `{show(mm['m'], 80)}`, not the configured perturbation_magnitudes (it was transformed before the range scaling)"
+            continue
         ok, why = True, ""
     res.add(f, site, "magnitudes == where(types == RELATIVE, (upper_bounds - lower_bounds) * m, m)", ok, why, construct=f"{f.name}: relative scaling")
     # finite-bounds validation dominates the scaling
